@@ -106,6 +106,28 @@ func checkC12(rep *core.Report) {
 	r6 := rep.Rule("R12.6", "mirror copy lives in its own pool buffer", 2)
 	r7 := rep.Rule("R12.7", "pool uniformity: New and every Put use the same size option; every Get is asserted to []byte", 10)
 	r8 := rep.Rule("R12.8", "decoded objects do not outlive their iteration; decoders do not recycle buffers", 5)
+	r9 := rep.Rule("R12.9", "nothing a worker runs (decode, encode, publish) writes unsynchronised package-level state", 1)
+	{
+		var workers []*ssa.Function
+		for _, p := range findPipelines(prog) {
+			if p.worker != nil {
+				workers = append(workers, p.worker)
+			}
+		}
+		caches := map[types.Type]bool{}
+		for _, rel := range []string{"ipfix", "netflow/v9"} {
+			if c := findTplCache(prog, rel); c.cacheT != nil {
+				caches[c.cacheT] = true
+			}
+		}
+		checkNoSharedWrites(prog, r9, workers, 80, func(w sharedWrite) string {
+			// the template cache is the one deliberately shared structure: its discipline is C10's lockset rule
+			if rt := w.fn.Signature.Recv(); rt != nil && caches[core.Deref(rt.Type())] {
+				return "method of the template cache (lock discipline: C10)"
+			}
+			return ""
+		}, "workers run concurrently, each on its own datagram, so a package-level scratch buffer or cache written while decoding or encoding lets one datagram's bytes appear in another's message (and is a data race)")
+	}
 	pools := findPools(prog)
 	pipes := findPipelines(prog)
 	checkPoolUniformity(prog, r7, pools)
